@@ -9,6 +9,9 @@ rows = []
 for f in sorted(glob.glob(os.path.join(VERIF, "seeded", "*", "meta.json"))):
     m = json.load(open(f))
     needs = (m.get("needs") or "").strip().split("\n")[0][:140]
+    if m.get("obsolete"):
+        rows.append((m["id"], m["property"], m.get("demo_on_unchanged_tree"), m.get("demo_with_change"), "obsolete: " + m["obsolete"], needs))
+        continue
     res = ", ".join(f"{c}:{'DETECTED' if v['exit'] == 1 else 'missed' if v['exit'] == 0 else 'tool-error'}"
                     for c, v in m.get("results", {}).items())
     rows.append((m["id"], m["property"], m.get("demo_on_unchanged_tree"), m.get("demo_with_change"), res, needs))
@@ -20,5 +23,10 @@ with open(os.path.join(VERIF, "seeded", "README.md"), "w") as out:
     for r in rows:
         out.write(f"| {r[0]} | {r[1]} | {r[2]} / {r[3]} | {r[4]} | {r[5].replace('|', '/')} |\n")
     det = sum("DETECTED" in r[4] for r in rows)
-    out.write(f"\n{det} of {len(rows)} seeded changes are detected by at least one quick check.\n")
+    obs = sum(r[4].startswith("obsolete") for r in rows)
+    out.write(f"\n{det} of {len(rows) - obs} live seeded changes are detected by at least one quick check; {obs} are obsolete "
+              "(their patch or demonstration no longer applies to the repaired tree, see the row).\n")
+    notes = os.path.join(VERIF, "seeded", "NOTES.md")
+    if os.path.exists(notes):
+        out.write("\n" + open(notes).read())
 print(len(rows), "rows")
